@@ -5,6 +5,8 @@
 import Mathlib.Data.List.Basic
 import Mathlib.Data.List.Pairwise
 import Mathlib.Data.List.Forall2
+import Mathlib.Data.List.Lex
+import Mathlib.Data.Char
 import Mathlib.Tactic.Linarith
 import PdbVerif.Model.Table
 
@@ -118,6 +120,16 @@ theorem intLt_strict : StrictTotal Model.intLt where
   irrefl a := by simp [Model.intLt]
   trans a b c := by simp only [Model.intLt, decide_eq_true_eq]; omega
   total a b := by simp only [Model.intLt, decide_eq_false_iff_not, decide_eq_true_eq]; omega
+
+theorem strLt_strict : StrictTotal strLt := by
+  refine ⟨?_, ?_, ?_⟩
+  · intro a; simp [strLt]
+  · intro a b c; simp only [strLt, decide_eq_true_eq]; exact fun h1 h2 => lt_trans h1 h2
+  · intro a b; simp only [strLt, decide_eq_false_iff_not, decide_eq_true_eq]
+    intro h1 h2; rcases lt_trichotomy a b with h | h | h
+    · exact absurd h h1
+    · exact absurd h h2
+    · exact h
 
 /-! ### chunks -/
 
